@@ -34,32 +34,39 @@ def condValue (r : R Val) : Option Val :=
   | .err e => if e.direct then some .nil else none
   | .fatal _ => none
 
+/-- the state after a condition: when an unknown-identifier failure is forgiven, the statement it happened in
+    is no longer blamed (`c.curStmt = cur`); otherwise the state the evaluation left -/
+def condState (s : ES) (r : R Val) (s' : ES) : ES :=
+  match r with
+  | .err e => if e.direct then { s' with curStmt := s.curStmt } else s'
+  | _ => s'
+
 /-- `!e`: the negation of the operand's truth value (unknown identifier = nil = falsy) -/
 theorem C07_bang (fuel : Nat) (t : Token) (r : Option Expr) (s s' : ES) (res : R Val) (v : Val)
     (h : evalExpr fuel r s = (res, s')) (hv : condValue res = some v) :
-    evalExpr (fuel + 1) (some (.pre t (b "!") r)) s = (.ok (.bool (!truthySpec v)), s') := by
+    evalExpr (fuel + 1) (some (.pre t (b "!") r)) s = (.ok (.bool (!truthySpec v)), condState s res s') := by
   rw [← C07_truthy]
   cases res with
   | ok a =>
     simp [condValue] at hv; subst hv
-    simp [evalExpr, bind, attempt, h, pure]
+    simp [evalExpr, bind, attempt, h, pure, getS, forgive, modifyS, condState]
   | err e =>
     simp only [condValue] at hv
     by_cases hd : e.direct = true
     · simp [hd] at hv; subst hv
-      simp [evalExpr, bind, attempt, h, pure, hd]
+      simp [evalExpr, bind, attempt, h, pure, getS, forgive, modifyS, condState, hd]
     · simp [hd] at hv
   | fatal f => simp [condValue] at hv
 
 /-- `if (c) {…}` takes the then-block exactly when the condition is truthy -/
 theorem C07_if_true (fuel : Nat) (c : Option Expr) (bl : Block) (elifs els) (s s' : ES) (res : R Val) (v : Val)
     (h : evalExpr fuel c s = (res, s')) (hv : condValue res = some v) (ht : truthySpec v = true) :
-    evalIf (fuel + 1) c bl elifs els s = evalBlock fuel bl s' := by
+    evalIf (fuel + 1) c bl elifs els s = evalBlock fuel bl (condState s res s') := by
   rw [← C07_truthy] at ht
   cases res with
   | ok a =>
     simp [condValue] at hv; subst hv
-    simp [evalIf, bind, attempt, h, pure, ht]
+    simp [evalIf, bind, attempt, h, pure, getS, forgive, modifyS, condState, ht]
   | err e =>
     simp only [condValue] at hv
     by_cases hd : e.direct = true
@@ -69,17 +76,17 @@ theorem C07_if_true (fuel : Nat) (c : Option Expr) (bl : Block) (elifs els) (s s
 
 theorem C07_if_false (fuel : Nat) (c : Option Expr) (bl : Block) (elifs els) (s s' : ES) (res : R Val) (v : Val)
     (h : evalExpr fuel c s = (res, s')) (hv : condValue res = some v) (ht : truthySpec v = false) :
-    evalIf (fuel + 1) c bl elifs els s = evalElifs fuel elifs els s' := by
+    evalIf (fuel + 1) c bl elifs els s = evalElifs fuel elifs els (condState s res s') := by
   rw [← C07_truthy] at ht
   cases res with
   | ok a =>
     simp [condValue] at hv; subst hv
-    simp [evalIf, bind, attempt, h, pure, ht]
+    simp [evalIf, bind, attempt, h, pure, getS, forgive, modifyS, condState, ht]
   | err e =>
     simp only [condValue] at hv
     by_cases hd : e.direct = true
     · simp [hd] at hv; subst hv
-      simp [evalIf, bind, attempt, h, pure, hd, isTruthy, Val.tview, Gen.isTruthyView]
+      simp [evalIf, bind, attempt, h, pure, getS, forgive, modifyS, condState, hd, isTruthy, Val.tview, Gen.isTruthyView]
     · simp [hd] at hv
   | fatal f => simp [condValue] at hv
 
@@ -89,7 +96,7 @@ inductive AllFalsy : Nat → List (Token × Option Expr × Block) → ES → ES 
   | nil (fuel s) : AllFalsy fuel [] s s
   | cons (fuel t c bl rest s s1 s' res v) :
       evalExpr fuel c s = (res, s1) → condValue res = some v → truthySpec v = false →
-      AllFalsy fuel rest s1 s' → AllFalsy (fuel + 1) ((t, c, bl) :: rest) s s'
+      AllFalsy fuel rest (condState s res s1) s' → AllFalsy (fuel + 1) ((t, c, bl) :: rest) s s'
 
 /-- CHAIN: if the else-if conditions before position k are falsy and the k-th is truthy, the chain
     evaluates to exactly the k-th block — whatever follows (later conditions are not evaluated: they do
@@ -98,7 +105,7 @@ theorem C07_chain_first (pre : List (Token × Option Expr × Block)) :
     ∀ (fuel : Nat) (t : Token) (c : Option Expr) (bl : Block) (post els) (s s1 s2 : ES) (res : R Val) (v : Val),
     AllFalsy (fuel + pre.length + 1) pre s s1 →
     evalExpr fuel c s1 = (res, s2) → condValue res = some v → truthySpec v = true →
-    evalElifs (fuel + pre.length + 1) (pre ++ (t, c, bl) :: post) els s = evalBlock fuel bl s2 := by
+    evalElifs (fuel + pre.length + 1) (pre ++ (t, c, bl) :: post) els s = evalBlock fuel bl (condState s1 res s2) := by
   induction pre with
   | nil =>
     intro fuel t c bl post els s s1 s2 res v hf h hv ht
@@ -107,7 +114,7 @@ theorem C07_chain_first (pre : List (Token × Option Expr × Block)) :
     cases res with
     | ok a =>
       simp [condValue] at hv; subst hv
-      simp [evalElifs, bind, attempt, h, pure, ht]
+      simp [evalElifs, bind, attempt, h, pure, getS, forgive, modifyS, condState, ht]
     | err e =>
       simp only [condValue] at hv
       by_cases hd : e.direct = true
@@ -121,21 +128,21 @@ theorem C07_chain_first (pre : List (Token × Option Expr × Block)) :
     rw [hlen] at hf
     cases hf with
     | cons _ _ _ _ _ _ sm _ resx vx hx hvx htx hrest =>
-      have ih' := ih fuel t c bl post els sm s1 s2 res v hrest h hv ht
+      have ih' := ih fuel t c bl post els (condState s resx sm) s1 s2 res v hrest h hv ht
       rw [← C07_truthy] at htx
       have hstep : evalElifs (fuel + ((tx, cx, blx) :: pre).length + 1) ((tx, cx, blx) :: pre ++ (t, c, bl) :: post) els s
-          = evalElifs (fuel + pre.length + 1) (pre ++ (t, c, bl) :: post) els sm := by
+          = evalElifs (fuel + pre.length + 1) (pre ++ (t, c, bl) :: post) els (condState s resx sm) := by
         have : fuel + ((tx, cx, blx) :: pre).length + 1 = (fuel + pre.length + 1) + 1 := by simp; omega
         rw [this]
         cases resx with
         | ok a =>
           simp [condValue] at hvx; subst hvx
-          simp [evalElifs, bind, attempt, hx, pure, htx]
+          simp [evalElifs, bind, attempt, hx, pure, getS, forgive, modifyS, condState, htx]
         | err e =>
           simp only [condValue] at hvx
           by_cases hd : e.direct = true
           · simp [hd] at hvx; subst hvx
-            simp [evalElifs, bind, attempt, hx, pure, hd, isTruthy, Val.tview, Gen.isTruthyView]
+            simp [evalElifs, bind, attempt, hx, pure, getS, forgive, modifyS, condState, hd, isTruthy, Val.tview, Gen.isTruthyView]
           · simp [hd] at hvx
         | fatal f => simp [condValue] at hvx
       rw [hstep]; exact ih'
@@ -157,19 +164,20 @@ theorem C07_chain_none (elifs : List (Token × Option Expr × Block)) :
     rw [hlen] at hf
     cases hf with
     | cons _ _ _ _ _ _ sm _ resx vx hx hvx htx hrest =>
-      have ih' := ih fuel els sm s1 hrest
+      have ih' := ih fuel els (condState s resx sm) s1 hrest
       rw [← C07_truthy] at htx
       have : fuel + ((tx, cx, blx) :: pre).length + 1 = (fuel + pre.length + 1) + 1 := by simp; omega
       rw [this]
       cases resx with
       | ok a =>
         simp [condValue] at hvx; subst hvx
-        simp [evalElifs, bind, attempt, hx, pure, htx]; exact ih'
+        simp [evalElifs, bind, attempt, hx, pure, getS, forgive, modifyS, condState, htx]; exact ih'
       | err e =>
         simp only [condValue] at hvx
         by_cases hd : e.direct = true
         · simp [hd] at hvx; subst hvx
-          simp [evalElifs, bind, attempt, hx, pure, hd, isTruthy, Val.tview, Gen.isTruthyView]; exact ih'
+          simp [evalElifs, bind, attempt, hx, pure, getS, forgive, modifyS, hd, isTruthy, Val.tview, Gen.isTruthyView]
+          simpa [condState, hd] using ih'
         · simp [hd] at hvx
       | fatal f => simp [condValue] at hvx
 
